@@ -34,6 +34,7 @@ def dispatch (op : String) (args : Json) : Option Json :=
   | "c17.facts" => some (c17facts args)
   | "fed.exec" => some (fedExec args)
   | "c10.check" => some (c10check args)
+  | "c10.anc" => some (c10anc args)
   | "c14.sent" => some (c14sent args)
   | "c04.validate" => some (c04validate args)
   | "c18.run" => some (c18run args)
